@@ -335,7 +335,9 @@ impl<R: AsyncBufRead + Unpin> NsReader<R> {
     ) -> Result<Span> {
         // According to the https://www.w3.org/TR/xml11/#dt-etag, end name should
         // match literally the start name. See `Config::check_end_names` documentation
-        self.reader.read_to_end_into_async(end, buf).await
+        let span = self.reader.read_to_end_into_async(end, buf).await?;
+        self.end_scope();
+        Ok(span)
     }
 
     /// An asynchronous version of [`read_resolved_event_into()`]. Reads the next
